@@ -16,7 +16,7 @@ INFO = {
                    'on the compiled model and on the model saved to bytes and loaded again - must equal the set computed '
                    'by a reference evaluator working on the source text (own parser, own expansion).',
     'bounds': {'quick': {'schemas': '14 hand-written shapes, the well-formed schemas of light_versec_test.py, 20 generated',
-                         'name': 'length 0..L+1 (L <= 7), components 08 01 xx with xx symbolic; one variant with a 2-byte '
+                         'name': 'length 0..L+1 (L <= 8; L-1..L+1 for the three hand-written schemas with 10-12 components), components 08 01 xx with xx symbolic; one variant with a 2-byte '
                                  'component and one with a component of symbolic type'},
                'thorough': {'schemas': '+ 400 generated'}},
     'outside': ['schemas outside the generator shapes', 'user functions other than $eq, $eq_type and one custom predicate',
@@ -159,9 +159,12 @@ def cases(tier, seed):
         if st[0] != 'ok':
             continue
         L = st[1].max_len()
-        if L > 8:
+        if L > 8 and not key.startswith('hand_'):
             continue
-        for sh in shapes_for(L, tier == 'quick'):
+        shapes = shapes_for(L, tier == 'quick')
+        if L > 8:
+            shapes = [s for s in shapes if len(s) >= L - 1 and 't' not in s]     # long hand-written rules: few constraints
+        for sh in shapes:
             for reload in (False, True):
                 if reload and tier == 'quick' and len(sh) not in (L, L - 1):
                     continue
